@@ -52,20 +52,27 @@ def run_driver(chk, bindir, mode, vecs, tag):
     crashes = []
     skip = 0
     skipops = []
+    dead = []       # operations that crashed / did not return 8 times: left out from then on
+    per_op = {}
     while True:
-        p = core.run_cmd([os.path.join(bindir, "ustr"), mode, path, str(skip), ",".join(skipops)], check=False, timeout=1800)
+        p = core.run_cmd([os.path.join(bindir, "ustr"), mode, path, str(skip), ",".join(skipops), ",".join(dead)], check=False, timeout=1800)
         last = None
         for line in p.stdout.splitlines():
             r = json.loads(line)
             if "crash" in r:
                 crashes.append(r)
                 last = r["crash"]
+                per_op[r["op"]] = per_op.get(r["op"], 0) + 1
+                if per_op[r["op"]] >= 4 and r["op"] not in dead:
+                    dead.append(r["op"])
             else:
                 results[r["i"]] = r
         if p.returncode == 0:
             break
         if p.returncode == 42 and last is not None:
             if mode == "findbuf":   # one operation per vector: resume behind it
+                if dead:
+                    break           # the only operation of this family failed 4 times: enough
                 skip = last + 1
                 continue
             # resume at the crashing vector, leaving out the operations that faulted on it
@@ -74,6 +81,13 @@ def run_driver(chk, bindir, mode, vecs, tag):
             continue
         raise core.ToolError("ustr driver died rc=%s: %s" % (p.returncode, p.stderr[-2000:]))
     return results, crashes
+
+
+def crash_shape(c):
+    """signature shape and wording of a crash record of the driver"""
+    if c.get("hang"):
+        return "does_not_return", "did not return within 1 s of CPU time"
+    return "read_outside_argument", "faulted on the guard page behind its argument (or aborted)"
 
 
 def judge_with_tlc(chk, records, tag):
